@@ -118,7 +118,7 @@ fn plan(prop: &str) -> Plan {
             runs_thorough: 20_000_000,
             builds_quick: &["default", "preserve_order"],
             builds_thorough: ALL_BUILDS,
-            rule: "One evaluation = one seeded scenario: a document (DocGen layout plan rendered with multi-byte text, BOM, CRLF, comments, odd whitespace, dotted keys, header / array-of-tables / inline layouts, four string kinds, exotic number and date-time spellings; or one of the toml-test 1.0.0 valid documents) and a reader type inferred from its tree in which the reader peer asks for a span (serde_spanned protocol) at a seeded subset of nodes - values, keys, tables, arrays, array-of-tables elements, enum payloads, options, newtypes, the root; 100%, 60%, 25% or 10% of the nodes. Every span() of the parsed ImDocument is checked (bounds, char boundaries, nesting, slice re-parses to the same key/value, equals the byte range DocGen recorded when it wrote the token); the reader decodes through the four span-bearing routes with and without the Spanned wrappers (same verdict, same value, delivered span = the tree's own span()), and through the editable-document route where no span may survive. Non-trivial = reader type + document tree have >= 3 nodes; distinct = distinct conversation shape (seam event sequence with payloads erased), counted with a hash set. In 1/8 of the evaluations the peers are REAL derived types (workload R, sim/src/realfam.rs: seven families using flatten, untagged, internally and adjacently tagged enums, default, rename_all, skip_serializing_if, Box, toml::Table flattened, and HashMap fields whose iteration order is the environment's choice) driven through the same seams, faults and oracles.",
+            rule: "One evaluation = one seeded scenario: a document (DocGen layout plan rendered with multi-byte text, BOM, CRLF, comments, odd whitespace, dotted keys, header / array-of-tables / inline layouts, four string kinds, exotic number and date-time spellings; or one of the toml-test 1.0.0 valid documents) and a reader type inferred from its tree in which the reader peer asks for a span (serde_spanned protocol) at a seeded subset of nodes - values, keys, tables, arrays, array-of-tables elements, enum payloads, options, newtypes, the root; 100%, 60%, 25% or 10% of the nodes. Every span() of the parsed ImDocument is checked (bounds, char boundaries, nesting, slice re-parses to the same key/value, equals the byte range DocGen recorded when it wrote the token); the reader decodes through the four span-bearing routes with and without the Spanned wrappers (same verdict, same value, delivered span = the tree's own span()), and through the editable-document route where no span may survive. Non-trivial = reader type + document tree have >= 3 nodes; distinct = distinct conversation shape (seam event sequence with payloads erased), counted with a hash set.",
             real: &["toml_edit parser (all span producers), ImDocument / DocumentMut / into_mut / despan", "toml_edit::de::* incl. SpannedDeserializer, KeyDeserializer; toml::de wrappers", "Value::from_str / Key::from_str (slice re-parse)", "serde's primitive impls"],
             stub: &["reader peer R(T) with a stub visitor for the serde_spanned protocol (same call sequence as serde_spanned::Spanned<T>)", "DocGen renderer and its expected-span table", "seam interposers (logging only)"],
             assumptions: &["DocGen only uses constructs the TOML specification shows as valid (class U1 excluded); a generated document the library rejects is counted, not reported", "for tables that have no span of their own (dotted-key / header-implied) only bounds and containment of children are asserted for a delivered span", "the stub Spanned visitor follows serde_spanned's protocol (self-tested against the real type)"],
